@@ -50,6 +50,27 @@ def small_screen(seed, observed_frac=0.5):
 
 
 # operations that take a generator but (on the current tree) never draw from it
+def pinned(f):
+    """f with the two causes of the known finding C18/gibbs-global-rng removed: the process-global numpy generator is seeded from the
+    seed argument (and restored afterwards), the MVN draws of the legacy samplers use that generator instead of a fresh unseeded one"""
+    import functools
+    from batchie.fast_mvn import sample_mvn_from_precision as real
+    from batchie.models import sparse_combo as SC, sparse_combo_interaction as SI
+    from harness.drivers.c04 import GlobalRng
+
+    def g(seed):
+        saved_state = np.random.get_state()
+        saved = (SC.sample_mvn_from_precision, SI.sample_mvn_from_precision)
+        SC.sample_mvn_from_precision = SI.sample_mvn_from_precision = functools.partial(real, rng=GlobalRng())
+        np.random.seed(seed % (2 ** 32))
+        try:
+            return f(seed)
+        finally:
+            SC.sample_mvn_from_precision, SI.sample_mvn_from_precision = saved
+            np.random.set_state(saved_state)
+    return g
+
+
 DETERMINISTIC = {"retro:mergemin", "retro:mergetb", "retro:npl", "select:policy", "cli:select_next_plate"}
 
 
@@ -110,6 +131,27 @@ def build_ops(tmp, rnd):
     ops["select:policy"] = (sel, scr_digest(scr), None)
     ops["score_chunk:random"] = (lambda seed, scr=scr: np.ascontiguousarray(score_chunk(RandomScorer(), None, scr, None, np.random.default_rng(seed), False, 1, 0, None).scores).tobytes().hex(),
                                  scr_digest(scr), None)
+    # the multivariate normal draw with the generator it is given (the samplers call it without one: known finding), every dimension
+    from batchie.fast_mvn import sample_mvn_from_precision
+    for dim in (1, 2, 3):
+        A = np.random.default_rng(dim).normal(size=(dim, dim))
+        Q, b = A @ A.T + np.eye(dim), np.arange(1.0, dim + 1.0)
+        ops["mvn:sample_mvn_from_precision(dim=%d)" % dim] = (
+            lambda seed, Q=Q, b=b: np.ascontiguousarray(sample_mvn_from_precision(Q.copy(), mu_part=b.copy(), rng=np.random.default_rng(seed))).tobytes().hex(),
+            "mvn-%d" % dim, None)
+    # sampling.sample hands a generator to the model: a model that actually draws from it (the shipped Gibbs samplers do not: known finding)
+    from harness.drivers.c17 import CountMCMC
+
+    class Drawing(CountMCMC):
+        def step(self):
+            super().step()
+            self.drawn = getattr(self, "drawn", []) + [float(self.rng.normal())]
+
+    def sample_stub(seed):
+        m = Drawing()
+        sampling.sample(m, ThetaHolder(n_thetas=2), seed, n_chains=2, chain_index=1, n_burnin=1, thin=1)
+        return repr([bits(x) for x in m.drawn])
+    ops["train:sampling.sample(model drawing from the generator it is handed)"] = (sample_stub, "stub-model", None)
     # model training through sampling.sample
     obs_scr = small_screen(7, observed_frac=1.0).screen(all_observed=True)
     for mname, cls, kw in (("SparseDrugCombo", SparseDrugCombo, {}), ("SparseDrugComboInteraction", SparseDrugComboInteraction, {})):
@@ -119,6 +161,9 @@ def build_ops(tmp, rnd):
             h = sampling.sample(m, ThetaHolder(n_thetas=2), seed, n_chains=2, chain_index=1, n_burnin=2, thin=2)
             return "".join(theta_digest(t) for t in h.thetas)
         ops["train:" + mname] = (train, scr_digest(obs_scr), "C18/gibbs-global-rng")
+        # the known finding names its cause (draws from the global generator and from unseeded MVN generators).  With exactly those two
+        # pinned, training is reproducible - anything else that makes it differ is a DIFFERENT violation and is reported
+        ops["train:%s [global generator and MVN generator pinned]" % mname] = (pinned(train), scr_digest(obs_scr), None)
     # command-line steps given --seed
     sfn = os.path.join(tmp, "in.screen.h5")
     full = small_screen(11, observed_frac=1.0).screen(all_observed=True)
@@ -150,6 +195,7 @@ def build_ops(tmp, rnd):
                 "--n-burnin", "1", "--thin", "1", "--n-chains", "1", "--chain-index", "0", "--seed", str(seed)])
         return "".join(theta_digest(t) for t in ThetaHolder.load_h5(out).thetas)
     ops["cli:train_model"] = (train_cli, scr_digest(part), "C18/gibbs-global-rng")
+    ops["cli:train_model [global generator and MVN generator pinned]"] = (pinned(train_cli), scr_digest(part), None)
     # thetas + distance matrix files for calculate_scores
     sp = ExperimentSpace.from_screen(part)
     h = ThetaHolder(n_thetas=3)
@@ -240,7 +286,7 @@ def run(ctx):
         reps = 2 if ctx.quick else 6
         for name, (f, indig, known) in sorted(ops.items()):
             for rep in range(reps):
-                seed = 100 + rep
+                seed = (0, 100, 101, 7, 2 ** 31 - 1, 12345)[rep % 6] if rep < 6 else 100 + rep        # 0 is a seed like any other
                 events = []
                 np.random.seed(rnd.randrange(2 ** 31))
                 outs = []
